@@ -82,7 +82,9 @@ def engine_exception_violation(e: BaseException) -> Optional[Dict[str, Any]]:
 def safe_execute(mod, program: Dict[str, Any]) -> Dict[str, Any]:
     """Run one program; never raises (harness errors are reported in the outcome)."""
     try:
-        out = mod.execute(copy.deepcopy(program))
+        import contextlib
+        with open(os.devnull, "w") as _dn, contextlib.redirect_stderr(_dn):
+            out = mod.execute(copy.deepcopy(program))
     except BaseException as e:  # noqa: BLE001 - includes SimCrash leaking = harness bug
         if isinstance(e, (KeyboardInterrupt, SystemExit)):
             raise
